@@ -302,3 +302,7 @@ func TestMain(m *testing.M)   { vf.Main(m, "C03") }
 func TestCorpus(t *testing.T) { vf.Corpus(t) }
 func TestProp(t *testing.T)   { vf.RunAll(t) }
 func TestReplay(t *testing.T) { vf.ReplayEnv(t) }
+
+// native fuzz targets (thorough tier): the fuzzer mutates the byte stream that rapid decodes into generator choices
+func FuzzUniformPB(f *testing.F) { vf.FuzzNamed(f, "C03", "uniform-pb") }
+func FuzzCovering(f *testing.F) { vf.FuzzNamed(f, "C03", "covering") }
